@@ -2,6 +2,7 @@ package main
 
 import (
 	"fmt"
+	"strings"
 	"go/token"
 	"go/types"
 
@@ -14,9 +15,9 @@ import (
 const chanArr = "(Array Int Int)"
 
 func (u *Unit) chanInit(st *State, r, size Term) {
-	for _, c := range []struct{ comp, v string }{{"C_cap", size}, {"C_sent", "0"}, {"C_recvd", "0"}, {"C_expect", "0"}} {
+	for _, c := range []struct{ comp, v string }{{"C_cap", size}, {"C_sent", "0"}, {"C_recvd", "0"}, {"C_expect", "0"}, {"C_drain", "0"}} {
 		h := u.heapGet(st, c.comp, chanArr)
-		u.heapSet(st, c.comp, chanArr, fmt.Sprintf("(store %s %s %s)", h, r, c.v))
+		u.heapSetAt(st, c.comp, chanArr, fmt.Sprintf("(store %s %s %s)", h, r, c.v), r)
 	}
 }
 
@@ -26,17 +27,34 @@ func (u *Unit) chanGet(st *State, comp string, ch Term) Term {
 
 func (u *Unit) chanInc(st *State, comp string, ch Term) {
 	h := u.heapGet(st, comp, chanArr)
+	u.preciseNote = true
 	u.heapSet(st, comp, chanArr, fmt.Sprintf("(store %s %s (+ (select %s %s) 1))", h, ch, h, ch))
+	u.preciseNote = false
 	if st.discover != nil {
 		st.discover.noteHeap(comp, chanArr, ch)
 	}
 }
 
 func (u *Unit) chanInvFor(elem types.Type) *ChanInv {
+	if elem == nil {
+		return nil
+	}
 	k := shortTypeKey(elem)
 	for _, ci := range u.eng.cs.ChanInv {
 		if ci.ElemType == k {
 			return ci
+		}
+		// named / alias type given as pkg.Name
+		if dot := strings.LastIndex(ci.ElemType, "."); dot > 0 && !strings.ContainsAny(ci.ElemType, "( ") {
+			for _, sp := range u.eng.prog.AllPackages() {
+				if sp.Pkg.Name() == ci.ElemType[:dot] && isRepoPkg(sp.Pkg) {
+					if o := sp.Pkg.Scope().Lookup(ci.ElemType[dot+1:]); o != nil {
+						if tn, ok := o.(*types.TypeName); ok && types.Identical(tn.Type(), elem) {
+							return ci
+						}
+					}
+				}
+			}
 		}
 	}
 	return nil
@@ -86,10 +104,7 @@ func (u *Unit) recordSent(st *State, c Term, x Val) {
 		comp := "C_last_" + mangle(stripMod(typeKey(x.T))) + mangle(l.Suffix)
 		as := "(Array Int " + l.Sort + ")"
 		h := u.heapGet(st, comp, as)
-		u.heapSet(st, comp, as, fmt.Sprintf("(store %s %s %s)", h, c, x.Terms[i]))
-		if st.discover != nil {
-			st.discover.noteHeap(comp, as, c)
-		}
+		u.heapSetAt(st, comp, as, fmt.Sprintf("(store %s %s %s)", h, c, x.Terms[i]), c)
 	}
 }
 
@@ -138,6 +153,16 @@ func (u *Unit) recvValue(st *State, ch Val, t types.Type) Val {
 		}
 	}
 	u.chanInc(st, "C_recvd", ch.Terms[0])
+	if name := u.contract.Opts["recv-le-expected"]; name != "" {
+		// rely: only the spawned, registered senders hold the named channel and each sends once
+		fr := st.frames[0]
+		env := &SpecEnv{vars: map[string]Val{}, fr: fr, useLocals: true, fn: fr.fn, pkg: u.pkgOf(fr.fn)}
+		if cv, err := u.eval(st, env, &Spec{Kind: SIdent, Name: name}); err == nil && len(cv.Terms) == 1 {
+			st.assume(fmt.Sprintf("(=> (= %s %s) (<= %s (select %s %s)))", ch.Terms[0], cv.Terms[0], u.chanGet(st, "C_recvd", ch.Terms[0]), u.heapGet(st, "C_expect", chanArr), ch.Terms[0]))
+		} else {
+			u.fail(u.name + ": opt recv-le-expected: no such local channel " + name)
+		}
+	}
 	return v
 }
 
@@ -276,6 +301,18 @@ func (u *Unit) execGo(st *State, fr *Frame, in *ssa.Go) bool {
 	if !u.applyPre(st, c, env, "go:"+name, pos) {
 		return false
 	}
+	// drain: the spawned function will receive <count> messages from <chan>
+	if p := c.Opts["receives"]; p != "" {
+		f := strings.Fields(p)
+		if len(f) == 2 {
+			chv, ok1 := env.vars[f[0]]
+			nv, ok2 := env.vars[f[1]]
+			if ok1 && ok2 {
+				h := u.heapGet(st, "C_drain", chanArr)
+				u.heapSet(st, "C_drain", chanArr, fmt.Sprintf("(store %s %s (+ (select %s %s) %s))", h, chv.Terms[0], h, chv.Terms[0], nv.Terms[0]))
+			}
+		}
+	}
 	// expected sends: the spawned function will send once on the named parameter
 	if p := c.Opts["sends-once"]; p != "" {
 		if chv, ok := env.vars[p]; ok {
@@ -329,9 +366,9 @@ func (u *Unit) mapInit(st *State, t types.Type, r Term) {
 	}
 	has, hs := u.mapCompNames(m, ks)
 	h := u.heapGet(st, has, hs)
-	u.heapSet(st, has, hs, fmt.Sprintf("(store %s %s ((as const (Array %s Bool)) false))", h, r, ks))
+	u.heapSetAt(st, has, hs, fmt.Sprintf("(store %s %s ((as const (Array %s Bool)) false))", h, r, ks), r)
 	ml := u.heapGet(st, "M_len", "(Array Int Int)")
-	u.heapSet(st, "M_len", "(Array Int Int)", fmt.Sprintf("(store %s %s 0)", ml, r))
+	u.heapSetAt(st, "M_len", "(Array Int Int)", fmt.Sprintf("(store %s %s 0)", ml, r), r)
 }
 
 func (u *Unit) mapHasPure(st *State, mv Val, k Val) Term {
